@@ -25,7 +25,9 @@ def dec_tuple(d):
         return None
     d = D(d)
     t = d.normalize(decimal.Context(prec=60)).as_tuple()
-    return [int(t.sign), "".join(map(str, t.digits)), int(t.exponent)]
+    digits = "".join(map(str, t.digits))
+    # (the sign of a zero carries no value: -0E+12 and 0 are the same offset)
+    return [int(t.sign) if digits.strip("0") else 0, digits, int(t.exponent)]
 
 
 def gen_signal(rng, name, nbytes, used, opts):
